@@ -37,6 +37,7 @@ class Const:
 @dataclass(frozen=True)
 class StatusV:          # one WorkflowStatus value, known to lie in `members`
     members: frozenset
+    tok: str = ""        # alias token: every holder of the same runtime value shares it
 
 
 @cached_hash
